@@ -325,3 +325,26 @@ EXTRA = {
     "C19": "String-parameter law: for every parameter documented as <string>, f(x, v) == f(x, text(v)) for nil, booleans, "
            "numbers and arrays; booleans and 1.0/0.0 among sort_numeric inputs.",
 }
+
+
+# added after the defect-hunter round (DESIGN.md section 0.5a)
+_MORE = {
+    "C01": "Empty-bodied block tags (a case with no when, an if with no body) between every pair of markers under every default trim mode.",
+    "C02": "RecursionError escaping parse or render is a violation (2000 nested tags, 900-term boolean chains, 400 nested template strings, 600-deep lists are enumerated); ranges larger than len() can count in every looping construct; work proportional to the numeric value of a literal ((1..1e18) contains 'a', offset: 1e12) is detected as a hang even when it sits in a C loop (workers are hard-killed after 120 s on one case, confirmation in forked children).",
+    "C03": "A quarter of the differential cases use counting drops whose integer properties change on every read, so that a differing number of evaluations in the two modes changes the output; 20 hand templates cover every tag's condition and argument positions.",
+    "C04": "The origin of a bare & is confirmed with offset-preserving swaps (& -> ' and \" whose escaped forms are as long as &amp;).",
+    "C06": "Recursion graphs are repeated with every edge nested in up to 12 block tags (the interpreter's stack is then the competing bound): a RecursionError is a violation.",
+    "C07": "Context balance is also checked for depth-limit errors raised by each scope-pushing construct itself; the page of `render ... for` must equal the concatenation of the single-item renders (items do not see one another's assignments, captures or counters).",
+    "C08": "A block may include / render the chain's own root parent (dict vs caching loader vs model); a chain that overrides nothing must render exactly like its root parent, for roots with macros, cycles, counters, loop offsets and captures around and inside their blocks.",
+    "C09": "One caching loader object may serve two environments of which only one is configured.",
+    "C11": "A line statement's reported span may not include the closing delimiter of its liquid tag.",
+    "C12": "Keywords as variable names nested in brackets (z[true], [for]); variables called limit / reversed in array-literal iterables; pickling through all five loader kinds.",
+    "C13": "Files whose names are what `..` becomes with a default extension; symbolic links planted inside the roots that lead out of them (known finding).",
+    "C14": "Globals that are equal value by value yet render differently (0.0 / -0.0, key order); the documented loader.load(env, name) entry with environment globals; shadowing across the delegates of a caching choice loader.",
+    "C15": "t filter with plural: nil / null, with and without a context.",
+    "C17": "An error token's span must cover the text it carries; malformed-range seeds; line statements of a liquid tag must end before its closing delimiter.",
+    "C18": "Explicit + at every position is verbatim under every default trim mode; a case tag may have no when.",
+    "C19": "Non-numeric strings among summands; has <=> (find_index != nil) over arrays of arbitrary scalars and hashes."
+}
+for _k, _v in _MORE.items():
+    EXTRA[_k] = (EXTRA[_k] + " " + _v) if _k in EXTRA else _v
